@@ -199,7 +199,7 @@ func c42Gen(rng *kit.RNG, class string, thorough bool) *c42DAG {
 		leaves := rng.Range(1, 50)
 		width := rng.Range(500, 3000)
 		if thorough {
-			width = rng.Range(3000, 20000)
+			width = kit.Pick(rng, []int{rng.Range(3000, 8000), rng.Range(3000, 8000), 20000})
 		}
 		var ch []int
 		for i := 0; i < width/2; i++ {
@@ -387,6 +387,18 @@ func (l *c42Loader) LoadBlob(ctx context.Context, bh restic.BlobHandle, _ []byte
 
 var c42Hung bool
 
+// c42Set is the FindBlobSet handed to FindUsedBlobs; every insertion counts as traversal progress
+// for the watchdog (a 20 000 node tree is decoded inside one process call).
+type c42Set struct {
+	restic.BlobSet
+	events *atomic.Int64
+}
+
+func (s c42Set) Insert(h restic.BlobHandle) {
+	s.events.Add(1)
+	s.BlobSet.Insert(h)
+}
+
 type c42Counter struct{ n, max atomic.Uint64 }
 
 func (c *c42Counter) Add(v uint64)          { c.n.Add(v) }
@@ -415,6 +427,7 @@ func c42Watch(rec *kit.Rec, events *atomic.Int64, desc any, what string, cancel 
 		}
 	}()
 	const window = 120 * time.Second
+	stalls := 0
 	last, lastChange := events.Load(), time.Now()
 	canaryAt := canary.Load()
 	for {
@@ -437,7 +450,14 @@ func c42Watch(rec *kit.Rec, events *atomic.Int64, desc any, what string, cancel 
 			buf = buf[:12000]
 		}
 		if ticks < int64(window/(10*time.Millisecond))/4 {
-			rec.Inconclusive("%s: no progress for %v but the canary only ticked %d times (machine stalled)", what, window, ticks)
+			// the machine (or this process with GOMAXPROCS=1) is starved: not a verdict. Keep
+			// waiting; only after many starved windows the case is given up as inconclusive.
+			stalls++
+			if stalls < 15 {
+				lastChange, canaryAt = time.Now(), canary.Load()
+				continue
+			}
+			rec.Inconclusive("%s: no progress for %d windows of %v while the canary was starved (last window: %d ticks)", what, stalls, window, ticks)
 		} else {
 			rec.Violation("traversal-hangs", fmt.Sprintf("%s made no progress for %v (canary ticks %d): deadlock. Goroutines:\n%s", what, window, ticks, buf), desc)
 		}
@@ -458,7 +478,7 @@ func TestVerifC42(t *testing.T) {
 	defer runtime.GOMAXPROCS(origProcs)
 
 	classes := []string{"random", "diamond", "chain", "wide", "fan1000", "forest", "random", "diamond"}
-	n := env.Pick(1200, 20000)
+	n := env.Pick(1200, 6000)
 	var evals, treesLoaded, procCalls int64
 	for ci := 0; ci < n && !c42Hung; ci++ {
 		if !env.Mine(ci) {
@@ -633,6 +653,7 @@ func c42Run(t *testing.T, rec *kit.Rec, rng *kit.RNG, d *c42DAG, c *c42Case) {
 					bad := err != nil
 					if nodes != nil {
 						for item := range nodes {
+							events.Add(1)
 							if item.Error != nil {
 								bad = true
 							}
@@ -691,7 +712,7 @@ func c42Run(t *testing.T, rec *kit.Rec, rng *kit.RNG, d *c42DAG, c *c42Case) {
 		}
 		returned = c42Watch(rec, &events, c, "FindUsedBlobs "+why, cancel, func() {
 			rec.Guard("findusedblobs-panic", c, func() {
-				callErr = FindUsedBlobs(ctx, ld, roots, set, p)
+				callErr = FindUsedBlobs(ctx, ld, roots, c42Set{set, &events}, p)
 			})
 		})
 		if !returned {
